@@ -1425,6 +1425,14 @@ class ExprMixin(object):
             return
         if seq.is_py:
             raise OutOfReach('comprehension over %r' % (seq.py,))
+        if seq.ty.kind == 'opt' and seq.ty.args[0].is_ref:
+            for st1, b in self.branch(st, self.is_none(seq)):
+                if b:
+                    yield self.raise_(st1, TypeError, "'NoneType' object is not iterable")
+                else:
+                    for r in self.comp_over(node, g, st1, fr, SV(seq.term, seq.ty.args[0]), kind):
+                        yield r
+            return
         if seq.ty.kind in ('list', 'tuple') or (seq.ty.kind == 'obj'):
             for r in self.comp_symbolic(node, g, st, fr, seq, kind):
                 yield r
@@ -1483,6 +1491,46 @@ class ExprMixin(object):
             items.append((present, es[0][1]))
         yield st, mk(CondList(items))
 
+    def merge_outcomes(self, base, outs):
+        """outs: [(state, SV)] all extending base.pc; returns (state, SV) with the value an If-chain over the
+        branch conditions, or None when the values have no common representation"""
+        tys = [self.static_type(v) for _, v in outs]
+        refs = [t for t in tys if t.kind != 'none']
+        if not refs:
+            return None
+        t0 = refs[0]
+        if any(str(t) != str(t0) for t in refs):
+            return None
+        inner = t0.args[0] if t0.kind == 'opt' else t0
+        rty = Opt(inner) if (len(refs) != len(tys) or t0.kind == 'opt') and inner.is_ref else t0
+        if len(refs) != len(tys) and not inner.is_ref:
+            return None
+        code = code_of(rty)
+        term = None
+        extras = [stx.pc[len(base.pc):] for stx, _ in outs]
+        ids = [set(f.get_id() for f in ex) for ex in extras]
+        common_ids = set.intersection(*ids) if ids else set()
+        common = [f for f in extras[0] if f.get_id() in common_ids]     # facts every outcome assumed (typing, definitions)
+        def neg_id(f):
+            return f.arg(0).get_id() if z3.is_not(f) else z3.Not(f).get_id()
+        all_ids = set.union(*ids) if ids else set()
+        cond_facts = []
+        for (stx, v), ex in reversed(list(zip(outs, extras))):
+            own = [f for f in ex if f.get_id() not in common_ids]
+            # branch conditions are the literals whose complement another outcome carries; the rest are typing /
+            # definitional facts that hold whenever this outcome's branch is taken
+            conds = [f for f in own if neg_id(f) in all_ids]
+            facts = [f for f in own if neg_id(f) not in all_ids]
+            guard = z3.And(*conds) if conds else z3.BoolVal(True)
+            cond_facts.extend(z3.Implies(guard, f) for f in facts)
+            t = self.term(v, code)
+            term = t if term is None else z3.If(guard, t, term)
+        stb = base.copy()
+        stb.pc.extend(common)
+        stb.pc.extend(cond_facts)
+        stm, sv = self.from_heap(stb, term, rty)
+        return stm, sv
+
     def comp_symbolic(self, node, g, st, fr, seq, kind):
         """[f(x) for x in xs] over a symbolic list: result R with len(R)==len(xs) and forall i. R[i]==f(xs[i]).
         Filters are supported only as `[x for x in xs if p(x)]` -> abstract sub-sequence (ghost index map)."""
@@ -1505,8 +1553,20 @@ class ExprMixin(object):
             return
         es = list(self.ev(node.elt, st_i, fr))
         es = [e for e in es]
+        if len(es) > 1 and not any(isinstance(e[1], Raised) for e in es) and kind != 'set' \
+                and all(all(e[0].heap[k] is st_i.heap[k] or e[0].heap[k].eq(st_i.heap[k]) for k in st_i.heap if k in e[0].heap)
+                        for e in es):
+            # a forking but effect-free element (d.get(k, default)): merge the outcomes under their branch conditions
+            merged = self.merge_outcomes(st_i, es)
+            if merged is not None:
+                es = [merged]
+        if not es and not self.feasible(st_i):
+            # no index exists (the source is provably empty on this path): the result is a fresh empty list
+            yield self.new_list(st, [], ANY)
+            return
         if len(es) != 1 or isinstance(es[0][1], Raised):
-            raise OutOfReach('comprehension element not pure (forks or may raise): %s' % ast.unparse(node.elt))
+            raise OutOfReach('comprehension element not pure (forks or may raise): %s [%s]' % (
+                ast.unparse(node.elt), ', '.join('raise' if isinstance(e[1], Raised) else str(self.static_type(e[1])) for e in es)))
         st_e, e = es[0]
         extra = st_e.pc[len(st_i.pc):]
         if kind == 'set':
@@ -1536,7 +1596,7 @@ class ExprMixin(object):
                 if it.is_py and isinstance(it.py, tuple):
                     raise OutOfReach('nested tuple in comprehension element')
                 tv = self.term(it, 'V')
-                st = st.assume(z3.ForAll([i], z3.Implies(z3.And(0 <= i, i < n, *(facts_x + extra)), nla[base + i][pos] == tv)))
+                st = st.assume(z3.ForAll([i], z3.Implies(z3.And(0 <= i, i < n), z3.And(*(facts_x + extra + [nla[base + i][pos] == tv])))))
             st = self.HS(st, 'La.V', nla)
             ety = TupleT(*[self.static_type(x) for x in items])
             st, r = self.alloc(st, 'list')
@@ -1553,7 +1613,9 @@ class ExprMixin(object):
         st, r = self.alloc(st, 'list')
         arr = fresh('comp', z3.ArraySort(IntS, SORTS[rcode]))
         et = self.term(e, rcode)
-        st = st.assume(z3.ForAll([i], z3.Implies(z3.And(0 <= i, i < n, *(facts_x + extra)), arr[i] == et)))
+        # (facts_x / extra are typing facts and definitional facts of the i-th item, true for every index in range:
+        #  consequences, not guards - as guards they would leave arr[i] unconstrained wherever they cannot be re-derived)
+        st = st.assume(z3.ForAll([i], z3.Implies(z3.And(0 <= i, i < n), z3.And(*(facts_x + extra + [arr[i] == et])))))
         st = self.HS(st, 'La.' + rcode, z3.Store(self.H(st, 'La.' + rcode), r, arr))
         st = self.HS(st, 'Ll', z3.Store(self.H(st, 'Ll'), r, n))
         yield st, SV(r, ListT(rty))
